@@ -1,4 +1,5 @@
 CONSTANT Want = {"c02"}
+CONSTANT Conform = FALSE
 INIT TraceInit
 NEXT TraceNext
 INVARIANTS C02_Boundaries
